@@ -528,3 +528,29 @@ mod bigtests2 {
         assert_eq!(da.signum(), db.signum());
     }
 }
+
+/// det of the k x k Gram matrix of the edge vectors p_i - p_0 (i = 1..k) of k+1 points, as an
+/// exact rational in real units.  (k-dimensional measure)^2 = gram / (k!)^2.
+pub fn gram_det(sp: &ScaledPoints, idx: &[usize]) -> Rat {
+    let k = idx.len() - 1;
+    if k == 0 {
+        return Rat::from_int(BigInt::one());
+    }
+    let d = sp.dim;
+    let e: Vec<Vec<BigInt>> = (1..=k).map(|i| (0..d).map(|j| sp.big[idx[i]][j].sub(&sp.big[idx[0]][j])).collect()).collect();
+    let mut g = Vec::with_capacity(k * k);
+    for a in 0..k {
+        for b in 0..k {
+            let mut acc = BigInt::zero();
+            for j in 0..d {
+                acc = acc.add(&e[a][j].mul(&e[b][j]));
+            }
+            g.push(acc);
+        }
+    }
+    scale_pow2(Rat::from_int(det_int(k, &g)), 2 * (sp.exp as i64) * (k as i64))
+}
+
+pub fn factorial(n: usize) -> f64 {
+    (1..=n).map(|x| x as f64).product()
+}
